@@ -110,6 +110,7 @@ def arr_binop(I, ctx, op, a, b):
         return I.binop(ctx, op, x, y)
     n, elem = lift(I, ctx, f, a, b)
     r = NArr(n, elem, dt, _BIN.get(type(op), "?"))
+    r.origin = (op, a, b)
     # element-wise operations commute with a boolean-mask selection
     ms = [getattr(x, "masked_from", None) for x in (a, b) if isinstance(x, NArr)]
     if ms and all(m is not None for m in ms) and all(m[1] is ms[0][1] for m in ms):
@@ -178,6 +179,8 @@ def arr_getattr(I, ctx, a, name):
         return B_(lambda ctx, dt, *x, **k: arr_astype(I, ctx, a, dt))
     if name in ("size",):
         return B.wrap(zn(a))
+    if name == "max":
+        return B_(lambda ctx: I.ext["numpy"]["max"].fn(ctx, a))
     if name == "shape":
         return TupleVal([B.wrap(zn(a))])
     if name == "ndim":
@@ -381,6 +384,7 @@ def install(I):
 
     # core hooks: binop / compare / getattr / len / isinstance / getitem on NArr
     I.narr_hooks = True
+    install2(I)
 
 
 class BinSum(NArr):
@@ -481,3 +485,215 @@ def narr_getitem(I, ctx, a, k):
         seq = B.getslice(I, ctx, SeqVal(a.n, a.elem), k)
         return NArr(seq.length, seq.elem, a.dtype, "slice")
     raise Unsupported(f"ndarray index {k!r}")
+
+
+# ----------------------------------------------------------------------
+# 2-D arrays and +infinity (tax scales)
+# ----------------------------------------------------------------------
+class Inf:
+    """numpy.inf (+infinity when positive)"""
+
+    def __init__(self, positive=True):
+        self.positive = positive
+
+    def __repr__(self):
+        return "+inf" if self.positive else "-inf"
+
+
+class MaybeInf:
+    """a real that is +infinity under condition isinf (and -infinity under condition isneg)"""
+
+    def __init__(self, isinf, val, isneg=None):
+        self.isinf, self.val = isinf, val
+        self.isneg = isneg if isneg is not None else z3.BoolVal(False)
+
+
+def ext_le_real(a, x):
+    """a <= x for an extended real a and a real x"""
+    if isinstance(a, Inf):
+        return z3.BoolVal(not a.positive)
+    if isinstance(a, MaybeInf):
+        return z3.Or(a.isneg, z3.And(z3.Not(a.isinf), B.zreal(a.val) <= x)) if a.val is not None else a.isneg
+    return B.zreal(a) <= x
+
+
+def ext_gt_real(a, x):
+    """a > x"""
+    if isinstance(a, Inf):
+        return z3.BoolVal(a.positive)
+    if isinstance(a, MaybeInf):
+        return z3.Or(a.isinf, z3.And(z3.Not(a.isneg), B.zreal(a.val) > x)) if a.val is not None else a.isinf
+    return B.zreal(a) > x
+
+
+class NArr2:
+    """2-D array as a closure: rows, cols (int or z3 Int), elem(i, j)"""
+
+    def __init__(self, rows, cols, elem, dtype="float", tag=""):
+        self.rows, self.cols, self.elem, self.dtype, self.tag = rows, cols, elem, dtype, tag
+
+    def __repr__(self):
+        return f"NArr2<{self.dtype}>({self.rows}x{self.cols},{self.tag})"
+
+
+class DotSum(NArr):
+    """vector of sums over an inner index: element i = sum_{k < inner} term(i, k) (reduction node)"""
+
+    def __init__(self, ctx, n, inner, term, tag="dot"):
+        t = z3.Function(ctx.fresh_name("DOT"), z3.IntSort(), z3.RealSort())
+        super().__init__(n, lambda i: Sym(t(B._z(i))), "float", tag)
+        self.inner, self.term, self.fn = inner, term, t
+        ctx.ghost.setdefault("dotsums", []).append(self)
+
+    def select_instance(self, i, k):
+        """instance of the one-hot lemma (proved by induction in the lemma list): if every other term of row i is zero,
+        the sum is term (i, k)"""
+        q = z3.Int("k_other")
+        others_zero = z3.ForAll([q], z3.Implies(z3.And(q >= 0, q < B._z(self.inner), q != k), B.zreal(self.term(i, q)) == 0))
+        return z3.Implies(z3.And(k >= 0, k < B._z(self.inner), others_zero), self.fn(i) == B.zreal(self.term(i, k)))
+
+
+def num_min(x, y):
+    """element minimum with +inf"""
+    for a, b in ((x, y), (y, x)):
+        if isinstance(a, Inf) and a.positive:
+            return b
+        if isinstance(a, MaybeInf):
+            bv = b
+            return B.ite_val(a.isinf, (lambda: bv), (lambda: num_min(a.val, bv)))
+    xr, yr = B.zreal(x), B.zreal(y)
+    return B.wrap(z3.If(xr <= yr, xr, yr))
+
+
+def num_max(x, y):
+    for a, b in ((x, y), (y, x)):
+        if isinstance(a, Inf) and not a.positive:
+            return b
+        if isinstance(a, MaybeInf):
+            return MaybeInf(a.isinf, num_max(a.val, b))
+    xr, yr = B.zreal(x), B.zreal(y)
+    return B.wrap(z3.If(xr >= yr, xr, yr))
+
+
+def lift2(op, a, b):
+    """element-wise on 2-D / scalars"""
+    A = a if isinstance(a, NArr2) else None
+    Bv = b if isinstance(b, NArr2) else None
+    ref = A or Bv
+    return NArr2(ref.rows, ref.cols, lambda i, j: op(A.elem(i, j) if A else a, Bv.elem(i, j) if Bv else b), ref.dtype, "op2")
+
+
+def install2(I):
+    np_tab = I.ext["numpy"]
+    np_tab["inf"] = Inf(True)
+
+    def tile(ctx, a, reps):
+        ctx.assumed_ext.add("numpy.tile(v, (k, 1)): k rows, each a copy of v; .T transposes; outer(a, b)[i, j] = a[i]*b[j]")
+        a = as_narr(I, ctx, a)
+        reps = I.iterate(ctx, reps)
+        if len(reps) != 2 or reps[1] != 1:
+            raise Unsupported("numpy.tile with reps other than (k, 1)")
+        k = reps[0]
+        return NArr2(B._z(k) if not isinstance(k, int) else k, a.n, lambda i, j: a.elem(j), a.dtype, "tile")
+    np_tab["tile"] = Builtin("numpy.tile", tile)
+
+    def outer(ctx, a, b):
+        a, b = as_narr(I, ctx, a), as_narr(I, ctx, b)
+
+        def el(i, j):
+            x, y = a.elem(i), b.elem(j)
+            if isinstance(y, Inf):
+                ctx.assumed_ext.add("a positive threshold factor times +inf is +inf")
+                return y
+            if isinstance(y, MaybeInf):
+                return MaybeInf(y.isinf, I.binop(ctx, ast.Mult(), x, y.val))
+            return I.binop(ctx, ast.Mult(), x, y)
+        return NArr2(a.n, b.n, el, "float", "outer")
+    np_tab["outer"] = Builtin("numpy.outer", outer)
+
+    def minimum(ctx, a, b):
+        if isinstance(a, NArr2) or isinstance(b, NArr2):
+            return lift2(num_min, a, b)
+        n, elem = lift(I, ctx, num_min, a, b)
+        return NArr(n, elem, "float", "minimum")
+
+    def maximum(ctx, a, b):
+        if isinstance(a, NArr2) or isinstance(b, NArr2):
+            return lift2(num_max, a, b)
+        n, elem = lift(I, ctx, num_max, a, b)
+        return NArr(n, elem, "float", "maximum")
+    np_tab["minimum"] = Builtin("numpy.minimum", minimum)
+    np_tab["maximum"] = Builtin("numpy.maximum", maximum)
+
+    def dot(ctx, a, b):
+        ctx.assumed_ext.add("numpy.dot(v, M)[i] = sum_k v[k]*M[k, i]; numpy.dot(M, v)[i] = sum_k M[i, k]*v[k]")
+        mul = lambda x, y: I.binop(ctx, ast.Mult(), B.wrap(B.zreal(x)) if isinstance(x, Sym) and x.kind == "bool" else x,
+                                   B.wrap(B.zreal(y)) if isinstance(y, Sym) and y.kind == "bool" else y)
+        if isinstance(b, NArr2):
+            v = as_narr(I, ctx, a)
+            return DotSum(ctx, b.cols, v.n, lambda i, k: mul(v.elem(k), b.elem(k, i)), "dot(v,M)")
+        if isinstance(a, NArr2):
+            v = as_narr(I, ctx, b)
+            return DotSum(ctx, a.rows, a.cols, lambda i, k: mul(a.elem(i, k), v.elem(k)), "dot(M,v)")
+        raise Unsupported("numpy.dot on these shapes")
+    np_tab["dot"] = Builtin("numpy.dot", dot)
+
+    def hstack(ctx, parts):
+        items = I.iterate(ctx, parts)
+        seq = None
+        for p in items:
+            s = I.as_seq(ctx, p) if not scalar_like(p) and not isinstance(p, Inf) else SeqVal(1, lambda i, p=p: p)
+            seq = s if seq is None else B.seq_concat(seq, s)
+        return NArr(seq.length, seq.elem, "float", "hstack")
+    np_tab["hstack"] = Builtin("numpy.hstack", hstack)
+    def digitize(ctx, x, bins, right=False):
+        ctx.assumed_ext.add("numpy.digitize(x, increasing bins, right=False)[i] = the idx with bins[idx-1] <= x[i] < bins[idx] (0 / len(bins) at the ends)")
+        if right is not False:
+            raise Unsupported("digitize(right=True)")
+        x, bins = as_narr(I, ctx, x), as_narr(I, ctx, bins)
+        IDX = z3.Function(ctx.fresh_name("DIG"), z3.IntSort(), z3.IntSort())
+        nb = zn(bins)
+
+        def elem(i):
+            iz = B._z(i)
+            idx = IDX(iz)
+            xv = B.zreal(x.elem(i))
+            lo = bins.elem(smt.simp(idx - 1))
+            hi = bins.elem(smt.simp(idx))
+            ctx.assume(z3.And(idx >= 0, idx <= nb, z3.Implies(idx > 0, ext_le_real(lo, xv)), z3.Implies(idx < nb, ext_gt_real(hi, xv))))
+            return Sym(idx)
+        return NArr(x.n, elem, "int", "digitize")
+    np_tab["digitize"] = Builtin("numpy.digitize", digitize)
+    np_tab["size"] = Builtin("numpy.size", lambda ctx, a: B.wrap(zn(as_narr(I, ctx, a))) if not isinstance(a, NArr2) else B.wrap(B._z(a.rows) * B._z(a.cols)))
+    np_tab["finfo"] = Builtin("numpy.finfo", lambda ctx, t: Opaque(None, "finfo", {"fields": {"eps": 0}}))
+    np_tab["float64"] = np_tab.get("float64")
+
+
+def narr2_getattr(I, ctx, a, name):
+    if name == "T":
+        return NArr2(a.cols, a.rows, lambda i, j: a.elem(j, i), a.dtype, "T")
+    if name == "sum":
+        def s(ctx2, axis=None):
+            if axis != 1:
+                raise Unsupported("2-D sum with axis != 1")
+            conv = (lambda v: B.wrap(B.zreal(v))) if a.dtype == "bool" else (lambda v: v)
+            return DotSum(ctx2, a.rows, a.cols, lambda i, k: conv(a.elem(i, k)), "rowsum")
+        return Builtin("sum", s)
+    if name == "shape":
+        return TupleVal([B.wrap(B._z(a.rows)), B.wrap(B._z(a.cols))])
+    return None
+
+
+def narr2_getitem(I, ctx, a, k):
+    if isinstance(k, TupleVal) and len(k.items) == 2:
+        r, c = k.items
+        full = lambda s: isinstance(s, tuple) and s[0] == "slice" and s[1] is None and s[2] is None
+        if full(r) and isinstance(c, tuple) and c[0] == "slice":
+            _, lo, hi, st = c
+            off = 0 if lo is None else lo
+            if not isinstance(off, int) or off < 0 or (hi is not None and not (isinstance(hi, int) and hi < 0)):
+                raise Unsupported("2-D column slice")
+            drop_end = 0 if hi is None else -hi
+            cols = smt.simp(B._z(a.cols) - off - drop_end)
+            return NArr2(a.rows, cols, lambda i, j: a.elem(i, smt.simp(B._z(j) + off)), a.dtype, "colslice")
+    raise Unsupported(f"2-D index {k!r}")
